@@ -97,7 +97,7 @@ def nodes_cases(draw):
     kind = draw(st.sampled_from(["scatter", "grid_shape", "grid_spacing"]))
     case = dict(region=region, kind=kind)
     if kind == "scatter":
-        case.update(size=draw(st.integers(1, 200)), seed=draw(st.integers(0, 2**31 - 1)),
+        case.update(size=draw(st.integers(1, 200)), seed=draw(st.integers(0, 2**31 - 1)), extra_seq=draw(st.sampled_from(build.SEQS)),
                     extra=draw(st.one_of(st.none(), gen.finite(-100, 100), st.just(0.0), st.lists(st.one_of(gen.finite(-100, 100), st.just(0.0)), min_size=1, max_size=3))))
     elif kind == "grid_shape":
         case.update(shape=[draw(st.integers(1, 60)), draw(st.integers(1, 60))], pixel=draw(st.booleans()))
@@ -110,7 +110,7 @@ def nodes_cases(draw):
 def check_nodes(case, ctx):
     region = case["region"]
     if case["kind"] == "scatter":
-        kw = {} if case["extra"] is None else dict(extra_coords=case["extra"])
+        kw = {} if case["extra"] is None else dict(extra_coords=build.seq(case["extra"], case.get("extra_seq", "list")))
         a = vd.scatter_points(region, case["size"], random_state=case["seed"], **kw)
         b = vd.scatter_points(region, case["size"], random_state=case["seed"], **kw)
         n_extra = 0 if case["extra"] is None else (len(case["extra"]) if isinstance(case["extra"], list) else 1)
